@@ -203,7 +203,14 @@ fn build_field_variants(
                 if let CompiledValue::Spread { type_id, .. } = &compiled_values[compiled_idx] {
                     let spread_tuple_ids = extract_tuple_ids(program, *type_id);
 
-                    if spread_tuple_ids.is_empty() {
+                    // Every variant of the spread source must be a tuple: a value of any other
+                    // variant has no fields to spread and fails at run time.
+                    let all_variants_are_tuples = match program.lookup_type(*type_id) {
+                        Some(Type::Union(type_ids)) => type_ids.len() == spread_tuple_ids.len(),
+                        _ => true,
+                    };
+
+                    if spread_tuple_ids.is_empty() || !all_variants_are_tuples {
                         let ty = program.lookup_type(*type_id);
                         return Err(Error::TypeMismatch {
                             expected: "tuple".to_string(),
